@@ -967,6 +967,8 @@ def _copies_of(f: Fn, name: str) -> Set[str]:
 def strip_exempt_removed(P: Program) -> Tuple[Optional[Set[str]], str, Fn]:
     """names removed from the constructor-argument list before it is used as the set exempt from tag stripping"""
     f = fn(P, CTOR + '__strip_extra_attributes')
+    if len(f.fi.params) < 3:
+        raise AnalysisError('anchor changed: Constructor.__strip_extra_attributes(node, known_attrs) takes %s' % f.fi.params)
     known_param = f.fi.params[2]
     # the list variable consulted by the strip guard
     strips = [c for c in f.calls('strip_tags') if f.live(c)]
@@ -1366,6 +1368,16 @@ def r02_5_kinds(ctx):
     r.done()
 
 
+def fresh_scalar_assignments(f: Fn, name: str) -> Set[int]:
+    """cfg nodes of `name = yaml.ScalarNode(..)`: from there on the variable holds a node made here, which contains nothing"""
+    out = set()
+    for n in f.walk():
+        if isinstance(n, ast.Assign) and len(n.targets) == 1 and norm(n.targets[0]) == name and isinstance(n.value, ast.Call) \
+                and norm(n.value.func) in ('yaml.ScalarNode', 'ScalarNode') and f.nid(n) is not None:
+            out.add(f.nid(n))
+    return out
+
+
 def _param_sources(P: Program, g: Fn, pname: str):
     """[(caller facts, source expression)] for what the callers of method g pass for its parameter pname"""
     out = []
@@ -1700,8 +1712,20 @@ def r03_6_foreign_tags(ctx):
         for g, p in a:
             g2 = f.copies.expand(g)
             t, pol = canon_atom(g2, p)
+            want = 'self.__registered_classes[%s.tag]' % node
+            # `recognised == {the tag's class}` says more than membership: the tag's class is the one recognised class
+            if pol and isinstance(g2, ast.Compare) and len(g2.ops) == 1 and isinstance(g2.ops[0], (ast.Eq, ast.NotEq)):
+                for side in (g2.left, g2.comparators[0]):
+                    if isinstance(side, ast.Set) and len(side.elts) == 1:
+                        el = side.elts[0]
+                        if norm(el) == want:
+                            return True
+                        if isinstance(el, ast.Name):
+                            go = g.left if isinstance(g, ast.Compare) else None
+                            ds = reaching_defs(f, g, el.id)
+                            if ds and all(isinstance(d, ast.Assign) and norm(d.value) == want for d in ds):
+                                return True
             if pol and isinstance(g2, ast.Compare) and len(g2.ops) == 1 and isinstance(g2.ops[0], (ast.In, ast.NotIn)):
-                want = 'self.__registered_classes[%s.tag]' % node
                 if norm(g2.left) == want:
                     return True
                 # a local bound in several places (once per branch): what reaches this test
@@ -2290,7 +2314,9 @@ def _structural_recursion(r, f: Fn, what: str, node_param: str, self_call_pred, 
             '%s does not descend into the values of a mapping' % what)
 
 
-def r04_5_strip_tags(ctx, rid='R04.5'):
+def r04_5_strip_tags(ctx, rid='R04.5', keep_core=False):
+    """keep_core: additionally require that a scalar which already carries a core tag keeps it (a quoted '1' under Any is a
+    string; re-resolving every scalar would be safe for C04 - nothing is constructed - but changes the value that is built)"""
     P = ctx.P
     r = ctx.rule(rid, 'strip_tags is a complete structural recursion: seq/map tags forced, every element and both pair '
                       'components re-stripped, non-core scalar tags re-resolved', floor=6)
@@ -2312,6 +2338,11 @@ def r04_5_strip_tags(ctx, rid='R04.5'):
             elif known_instance(g, node, {'ScalarNode'}) and norm(n.value) == '%s.resolve(yaml.ScalarNode, %s.value, (True, False))' % (res, node):
                 pos = [x for x in f.guard_texts(n) if 'isinstance' not in x]
                 sc_store = pos in (["not %s.tag.startswith('tag:yaml.org,2002:')" % node], [])
+                if keep_core:
+                    r.check(pos == ["not %s.tag.startswith('tag:yaml.org,2002:')" % node], 'a scalar that carries a core tag keeps it',
+                            f.key('core-scalar-tag-kept'), f.loc(n), 'strip_tags re-resolves every scalar as if it were plain (guards: %s): a '
+                            'quoted or explicitly tagged scalar below Any / among the extra attributes changes its type - the string '
+                            '\'1\' becomes the int 1, \'true\' a bool, \'null\' None' % pos)
             else:
                 r.fail(f.key('tag-store:%s' % norm(n.value)), f.loc(n), 'strip_tags writes %s to a node tag' % norm(n.value))
     r.check(seq_store, 'sequence tag forced to the plain seq tag, unconditionally', f.key('seq-tag'), f.loc(),
